@@ -19,8 +19,37 @@ RULE = ("for a scaled value S and a finer S1 <= S: create, copy, pickle, fill a 
         "non-trivial = the downsampled sketch retains >= 2 hashes; distinct = distinct op lists. thorough adds the contiguous sweep 1..2^21")
 
 
+def implicit_in_indexes(chk, pkg):
+    """`search`, `prefetch` and best-match over collections that MIX scaled values downsample implicitly, per pair:
+    every answer must equal the score computed after explicit downsampling (brute force).  Reuses the C06 search
+    stream (its adapter, driver and set-based oracle) on its mixed-scaled flavours, both storage orders."""
+    from streams import search
+    n = 120 if chk.tier == "quick" else 1500
+    cases = [search.gen_case(chk.rng, ["order", "mixed", "order"][i % 3]) for i in range(n)]
+    res = streamlib.run_cases(search, cases, pkg, procs=16)
+    k = 0
+    for case, impl, model, crash in res:
+        chk.cov["evaluations"] += 1
+        if crash is not None:
+            chk.add_violation("crash", "C03:index:adapter-crash", "real code died on a mixed-scaled search case", {"case": case})
+            continue
+        chk.cov["traces_validated_against_impl"] += 1
+        k += 1
+        for idx, sig, msg in search.oracle(case, impl):
+            if sig.startswith("skip:"):
+                continue
+            # findings that belong to C06 alone (threshold conversion of prefetch) keep their C06 identity
+            if "prefetch-bp-threshold" in sig:
+                continue
+            chk.add_violation("oracle", "C03:implicit-downsample-in-index:" + sig.split(":", 1)[1], msg,
+                              {"case": case[:idx + 1], "impl": impl[:idx + 1], "op_index": idx})
+    chk.cov["index_level_cases"] = k
+
+
 def extra(chk, pkg):
-    """thorough tier: the contiguous sweep 1..2^21 on the implementation against the model"""
+    """quick+thorough: index-level implicit downsampling; thorough: the contiguous sweep 1..2^21 on the
+    implementation against the model"""
+    implicit_in_indexes(chk, pkg)
     if chk.tier != "thorough":
         return
     import random
